@@ -20,6 +20,15 @@ CLAIMED = {
             "Generated-input search: every string is decoded on all six networks; acceptance must imply canonical re-encoding, "
             "agreement with a strict reference acceptor written from the CashAddr/Base58Check/SEC1 rules, and correct IsForNet.",
             "Only accept => conditions are asserted (completeness is C01). Trusts math/big and crypto/sha256."),
+    "C03": ("exhaustive small-scope enumeration in syndrome space (meet-in-the-middle over the implementation's own remainder "
+            "function, exported by a build-tag hook) justified by a rapid-sampled metamorphic law (affine linearity), plus "
+            "property-based substitution tests against the decoders",
+            "All error patterns of weight <=4 on the 112-symbol CashAddr window and the 88-symbol bech32 window, and all weight-5 "
+            "patterns on the 61-symbol (quick) / 112-symbol (thorough) CashAddr window, are enumerated completely in syndrome "
+            "space; concrete corrupted strings (every single substitution by every byte value, random 2..5 substitutions) are "
+            "checked against the decoders and the reference.",
+            "Completeness of the enumeration rests on the affine-linearity law, which is sampled (and checked completely for "
+            "single-symbol errors on the zero codeword). Without the hook files the enumeration runs on reference arithmetic."),
     "C07": ("property-based testing (rapid) + exhaustive small-scope enumeration against independent "
             "reference codecs (long-division Base58, BIP173 reference, bit-stream model) and an argument-purity canary",
             "Generated-input search: exhaustive over byte strings <=2 / alphabet strings <=3 / all byte strings <=2 (3 thorough), "
